@@ -1,11 +1,18 @@
 #!/bin/bash
-# usage: seedrun.sh <seeded-name> [property] [tier]  -- applies the seeded patch to /repo, runs the check, undoes it
+# usage: seedrun.sh <seeded-name> [property] [tier]
+# Runs the property's check against a tree with the seeded change applied. The change is applied in
+# a scratch worktree of /repo's HEAD (gosym's -repo flag points the check at it), so /repo itself and
+# anything running against it are not disturbed; the committed evidence is left alone.
 name=$1; pid=${2:-${name%%-*}}; tier=${3:-quick}
+wt=/tmp/seedrepo_$name
 cd /verif
-git -C /repo apply /verif/seeded/$name/patch.diff || { echo "patch does not apply"; exit 3; }
-cp evidence/$pid.json /tmp/evidence_$pid.bak 2>/dev/null
-./check $pid --tier $tier > /tmp/seedrun_$name.out 2>&1; code=$?
-git -C /repo checkout -- .
-cp /tmp/evidence_$pid.bak evidence/$pid.json 2>/dev/null  # evidence must describe the unchanged tree
+git -C /repo worktree remove --force $wt 2>/dev/null
+git -C /repo worktree add -q --detach $wt HEAD || exit 3
+git -C $wt apply /verif/seeded/$name/patch.diff || { echo "patch does not apply"; git -C /repo worktree remove --force $wt; exit 3; }
+export GOFLAGS=-mod=mod GOPROXY=off GOSUMDB=off GOTOOLCHAIN=local
+cp evidence/$pid.json /tmp/evidence_$pid.$$.bak 2>/dev/null
+bin/gosym check -verif /verif -repo $wt -id $pid -tier $tier > /tmp/seedrun_$name.out 2>&1; code=$?
+cp /tmp/evidence_$pid.$$.bak evidence/$pid.json 2>/dev/null; rm -f /tmp/evidence_$pid.$$.bak
+git -C /repo worktree remove --force $wt
 grep -E "^(VIOLATION|INCONCLUSIVE|PASS|FAIL|KNOWN)" /tmp/seedrun_$name.out | cut -c1-300 | head -8
 echo "seed $name check $pid exit=$code"
